@@ -136,6 +136,7 @@ func allLaws() map[string][]*law {
 		{1e-6, 1e6, 1, 1e3},
 		{1, 1, 1, 1, 1, 1, 1, 1, 1, 1, 1, 1, 1, 1, 1, 1, 1},
 		{0.5, 0.25, 0.125, 0.0625, 0.03125, 0.015625, 0.0078125, 0.0078125},
+		{0.05, 0.1, 0.15, 0.02}, // sums to less than 1
 		{2, 0, 2, 0, 2, 0, 2, 0, 2, 0, 2, 0, 2, 0, 2, 0, 2, 0, 2, 0, 2, 0, 2, 0, 2, 0, 2, 0, 2, 0, 2, 0, 7},
 	} {
 		w := w
